@@ -2,6 +2,7 @@
 package c15
 
 import (
+	"bytes"
 	"encoding/binary"
 	"fmt"
 	"math"
@@ -338,3 +339,65 @@ func TestIPUtil(t *testing.T) {
 		sweepIPq.Check(t, 4)
 	}
 }
+
+// ---- iputil: what a call returns belongs to the caller -------------------------------------------------
+// The conversions are pure functions: the same argument gives the same result whatever earlier callers did with the
+// slices they were handed (a caller may keep, overwrite or append to its result: packs store these slices as they are).
+
+type IPOwnCase struct {
+	Calls []string `json:"calls"` // texts passed to ToBytes ("#<n>" = ToBytesFrInt(n)), in order; every result is scribbled over after it was judged
+}
+
+var ipTexts = []string{"", "0.0.0.0", "0.0.0.1", "255.255.255.255", "127.0.0.1", "10.20.30.40", "1.2.3", "1.2.3.4.5", "a.b.c.d", "x", " ", "::1", "1..2.3", "256.1.1.1", "-1.0.0.0", "#0", "#1", "#-1", "#2130706433"}
+
+var specIPOwn = pbt.Register(pbt.Spec[IPOwnCase]{
+	Prop: "C15", Name: "iputil-results-belong-to-caller",
+	Rule:  "2-12 calls of ToBytes (dotted quads incl. 0.0.0.0, empty and malformed texts) and ToBytesFrInt in generated order with repeats; every returned slice is overwritten by the caller after it was judged; oracle = a dotted quad gives its four bytes (net.ParseIP), and every argument gives, on every later call, exactly what it gave on its first call in a fresh state (pure function); non-trivial = some argument occurs twice; distinct by call sequence",
+	Quick: 3000, Thorough: 100000,
+	Draw: func(t *rapid.T) IPOwnCase {
+		return IPOwnCase{Calls: rapid.SliceOfN(rapid.OneOf(rapid.SampledFrom(ipTexts), rapid.SampledFrom(ipTexts), rapid.Custom(func(t *rapid.T) string {
+			return net.IP(binary.BigEndian.AppendUint32(nil, rapid.Uint32().Draw(t, "ip"))).String()
+		})), 2, 12).Draw(t, "calls")}
+	},
+	Run: func(c IPOwnCase) *pbt.Result {
+		first := map[string][]byte{}
+		repeat := false
+		for i, a := range c.Calls {
+			var got []byte
+			if strings.HasPrefix(a, "#") {
+				n, _ := strconv.ParseInt(a[1:], 10, 64)
+				got = iputil.ToBytesFrInt(int32(n))
+				want := binary.BigEndian.AppendUint32(nil, uint32(int32(n)))
+				if !bytes.Equal(got, want) {
+					return pbt.Fail("call %d: ToBytesFrInt(%d) = %v, want %v (earlier results of this history were overwritten by their callers)", i, n, got, want)
+				}
+			} else {
+				got = iputil.ToBytes(a)
+				if ip := net.ParseIP(a); ip != nil && ip.To4() != nil && strings.Count(a, ".") == 3 && !strings.Contains(a, ":") {
+					if !bytes.Equal(got, []byte(ip.To4())) {
+						return pbt.Fail("call %d: ToBytes(%q) = %v, want %v (earlier results of this history were overwritten by their callers)", i, a, got, []byte(ip.To4()))
+					}
+				}
+			}
+			if f, seen := first[a]; seen {
+				repeat = true
+				if !bytes.Equal(f, got) || (f == nil) != (got == nil) {
+					return pbt.Fail("call %d: the argument %q gave %v on its first call and gives %v now; in between the callers overwrote the slices they had been handed", i, a, f, got)
+				}
+			} else if got == nil {
+				first[a] = nil
+			} else {
+				first[a] = append([]byte{}, got...)
+			}
+			for k := range got {
+				got[k] = 0xA5
+			}
+			if cap(got) > len(got) {
+				_ = append(got, 0x5A, 0x5A, 0x5A, 0x5A)
+			}
+		}
+		return &pbt.Result{NT: repeat}
+	},
+})
+
+func TestIPResultsBelongToCaller(t *testing.T) { specIPOwn.Check(t) }
